@@ -362,13 +362,15 @@ def make_data_factory(flavour: str) -> Callable[[str], Any]:
 
 
 # ---------------------------------------------------------------- building real trees
-def build(spec: Spec, *, name: str = "T", flavour: str | None = None, tree_cls=None, mk=None, order: str = "pre"):
+def build(spec: Spec, *, name: str = "T", flavour: str | None = None, tree_cls=None, mk=None, order: str = "pre", node_ids: str | None = None):
     """Build the real tree for `spec` through the public API.  Returns (tree, nodes) with
     nodes[i] the real node of record i.  For flavour 'eq' style specs (label 'x' with
     explicit ids) data objects are equal strings.
     order='rev': the same tree, but every sibling group is created last-to-first (each node is
     prepended), level by level -- the creation / registration order then differs from the
-    pre-order, as it does after moves and insertions."""
+    pre-order, as it does after moves and insertions.
+    node_ids='even': the records at even positions get a caller-supplied node_id (7000 + position) -- a documented option;
+    the others keep the default id(node)."""
     from nutree import Tree
     from nutree.typed_tree import TypedTree
 
@@ -377,7 +379,7 @@ def build(spec: Spec, *, name: str = "T", flavour: str | None = None, tree_cls=N
         from . import hist, view
 
         base = Spec(spec.hist[0], typed=spec.typed, flavour=spec.flavour)
-        tree, nodes = build(base, name=name, flavour=flavour, tree_cls=tree_cls, mk=mk, order=order)
+        tree, nodes = build(base, name=name, flavour=flavour, tree_cls=tree_cls, mk=mk, order=order, node_ids=node_ids)
         hist.warm(tree, nodes)
         if not hist.apply(tree, nodes, list(spec.hist[1]), mk or make_data_factory(flavour), typed=spec.typed):
             raise RuntimeError(f"history refused: {spec.short()}")
@@ -407,18 +409,22 @@ def build(spec: Spec, *, name: str = "T", flavour: str | None = None, tree_cls=N
                         args["data_id"] = did
                     if spec.typed:
                         args["kind"] = kind
+                    if node_ids == "even" and ci % 2 == 0:
+                        args["node_id"] = 7000 + ci
                     nodes[ci] = parent.add(mk(lab), **args)
                 nxt += ch[pi]
             level = nxt
         return tree, nodes
     nodes = []
-    for p, lab, did, kind in spec.nodes:
+    for ci, (p, lab, did, kind) in enumerate(spec.nodes):
         parent = tree if p == -1 else nodes[p]
         args = {}
         if did is not None:
             args["data_id"] = did
         if spec.typed:
             args["kind"] = kind
+        if node_ids == "even" and ci % 2 == 0:
+            args["node_id"] = 7000 + ci
         nodes.append(parent.add(mk(lab), **args))
     return tree, nodes
 
